@@ -41,21 +41,35 @@ static void more_tokens() {
   { std::string t = ref_token(oct, JWT_ALG_HS512, H("HS512"), "{}"); TOKENS.push_back({"hs512-valid-other-alg", t}); }
   TOKENS.push_back({"hs256-valid-but-signed-by-other-key", ref_token(p.get("oct64b"), JWT_ALG_HS256, H("HS256"), "{}")});
   TOKENS.push_back({"eddsa-token", ref_token(p.get("ed25519"), JWT_ALG_EDDSA, H("EdDSA"), "{}")});
+  TOKENS.push_back({"rs256-token", ref_token(p.get("rsa_2048"), JWT_ALG_RS256, H("RS256"), "{\"iss\":\"issuer\"}")});
+  TOKENS.push_back({"ps256-token", ref_token(p.get("rsa_2048"), JWT_ALG_PS256, H("PS256"), "{\"iss\":\"issuer\"}")});
   TOKENS.push_back({"payload-empty-segment", b64u_enc(H("HS256")) + "..AAAA"});
   TOKENS.push_back({"header-empty-segment", ".e30.AAAA"});
   TOKENS.push_back({"only-dots", ".."});
   TOKENS.push_back({"header-len-1-mod-4", "eyJhb.e30.AAAA"});
 }
 
+// items the keyring flags with an error (their key material did not load): setkey takes them; every verification with one must fail WITH a message
+static const jwk_item_t *flagged_item(int i) {
+  static std::vector<LKey *> F;
+  if (F.empty()) {
+    JwkOpts o; o.priv = false; std::string ec = jwk_json(pool().get("ec_p256"), o), rsa = jwk_json(pool().get("rsa_2048"), o), okp = jwk_json(pool().get("ed25519"), o);
+    auto brk = [](std::string d, const char *member) { size_t p = d.find(std::string("\"") + member + "\":\""); if (p != std::string::npos) d.insert(p + strlen(member) + 4, "!*"); return d; };
+    F.push_back(new LKey(brk(ec, "y"))); F.push_back(new LKey(brk(rsa, "n"))); F.push_back(new LKey(brk(okp, "x")));
+    o.alg = "ES256"; F.push_back(new LKey(brk(jwk_json(pool().get("ec_p256"), o), "x")));
+  }
+  return F[i % F.size()]->item;
+}
 struct CheckerCfg { int key; jwt_alg_t alg; int cb; bool iss; long exp_lee; };
 static const CheckerCfg CCFG[] = {{-1, JWT_ALG_NONE, VCB_NONE, false, 0}, {1, JWT_ALG_NONE, VCB_NONE, false, 0}, {0, JWT_ALG_HS256, VCB_NONE, true, 0}, {4, JWT_ALG_NONE, VCB_NONE, false, -1}, {3, JWT_ALG_ES256, VCB_MUTATE, false, 0},
                                   {-1, JWT_ALG_NONE, VCB_FAIL, false, 0}, {-1, JWT_ALG_NONE, VCB_SELECT, false, 0}, {1, JWT_ALG_NONE, VCB_FAIL, true, 0}, {5, JWT_ALG_HS256, VCB_NONE, false, 0}, {6, JWT_ALG_NONE, VCB_NONE, false, 0}, {7, JWT_ALG_HS512, VCB_NONE, false, 5}, {2, JWT_ALG_HS256, VCB_NONE, false, 0},
-                                  {-1, JWT_ALG_NONE, VCB_ALG_ONLY, false, 0}, {-1, JWT_ALG_NONE, VCB_MISMATCH, false, 0}, {-1, JWT_ALG_NONE, VCB_KEY_NOALG, false, 0}, {1, JWT_ALG_NONE, VCB_MISMATCH, true, 0}, {1, JWT_ALG_NONE, VCB_ALG_ONLY, false, -1}, {-1, JWT_ALG_NONE, VCB_KID, false, 0}};
-static const int NCCFG = 18;
+                                  {-1, JWT_ALG_NONE, VCB_ALG_ONLY, false, 0}, {-1, JWT_ALG_NONE, VCB_MISMATCH, false, 0}, {-1, JWT_ALG_NONE, VCB_KEY_NOALG, false, 0}, {1, JWT_ALG_NONE, VCB_MISMATCH, true, 0}, {1, JWT_ALG_NONE, VCB_ALG_ONLY, false, -1}, {-1, JWT_ALG_NONE, VCB_KID, false, 0},
+                                  {100, JWT_ALG_ES256, VCB_NONE, false, 0}, {101, JWT_ALG_RS256, VCB_NONE, false, 0}, {102, JWT_ALG_EDDSA, VCB_NONE, false, 0}, {103, JWT_ALG_NONE, VCB_NONE, true, 0}, {101, JWT_ALG_PS256, VCB_MUTATE, false, -1}};   // keys >= 100: flagged items
+static const int NCCFG = 23;
 
 static jwt_checker_t *mk_checker(const CheckerCfg &c, VCtx *cx) {
   jwt_checker_t *ch = jwt_checker_new();
-  if (c.key >= 0 || c.alg != JWT_ALG_NONE) jwt_checker_setkey(ch, c.alg, c.key >= 0 ? keytab()[c.key].lk->item : nullptr);
+  if (c.key >= 0 || c.alg != JWT_ALG_NONE) jwt_checker_setkey(ch, c.alg, c.key >= 100 ? flagged_item(c.key - 100) : c.key >= 0 ? keytab()[c.key].lk->item : nullptr);
   jwt_checker_error_clear(ch);
   if (c.iss) jwt_checker_claim_set(ch, JWT_CLAIM_ISS, "issuer");
   jwt_checker_time_leeway(ch, JWT_CLAIM_EXP, c.exp_lee);
@@ -64,10 +78,12 @@ static jwt_checker_t *mk_checker(const CheckerCfg &c, VCtx *cx) {
 }
 
 // ---- Part A: enumerated checker causes on fresh and reused objects
+static int ONLY_CELL[4] = {-1, -1, -1, -1};
 static void part_checker(const Args &a) {
   Stats &st = stats(); int idx = 0;
   for (int prov = 0; prov < 2; prov++) for (int ci = 0; ci < NCCFG; ci++) for (size_t ti = 0; ti < TOKENS.size(); ti++) for (int reuse = 0; reuse < 3; reuse++) {
     if ((idx++ % a.nworkers) != a.worker) continue;
+    if (ONLY_CELL[0] >= 0 && (prov != ONLY_CELL[0] || ci != ONLY_CELL[1] || (int)ti != ONLY_CELL[2] || reuse != ONLY_CELL[3])) continue;   // replay of one cell
     set_provider(prov); set_now(1700000000); VCtx cx{VCB_NONE};
     jwt_checker_t *ch = mk_checker(CCFG[ci], &cx);
     CASE = "{\"part\":\"checker\",\"prov\":" + std::to_string(prov) + ",\"cfg\":" + std::to_string(ci) + ",\"token_class\":" + jstr(TOKENS[ti].first) + ",\"ti\":" + std::to_string(ti) + ",\"reuse\":" + std::to_string(reuse) + "}";
@@ -208,7 +224,11 @@ int main(int argc, char **argv) {
     J j = J::parse(read_file(a.replay)); if (!j) return 2;
     const char *part = json_string_value(json_object_get(j.p, "part")); std::string pt = part ? part : "";
     Args one = a; one.nworkers = 1; one.worker = 0;
-    if (pt == "checker") part_checker(one); else if (pt == "builder") part_builder(one); else if (pt == "keyring") part_keyring(one); else if (pt == "setget") { one.worker = 1 % one.nworkers; part_setget(one); }
+    if (pt == "checker" && json_object_get(j.p, "token_class")) {   // one cell; the token is named by its class (positions shift when tokens are added)
+      const char *tc = json_string_value(json_object_get(j.p, "token_class")); int ti = -1; for (size_t i = 0; i < TOKENS.size(); i++) if (TOKENS[i].first == tc) ti = (int)i;
+      if (ti >= 0) { ONLY_CELL[0] = (int)json_integer_value(json_object_get(j.p, "prov")); ONLY_CELL[1] = (int)json_integer_value(json_object_get(j.p, "cfg")); ONLY_CELL[2] = ti; ONLY_CELL[3] = (int)json_integer_value(json_object_get(j.p, "reuse")); }
+      part_checker(one); }
+    else if (pt == "checker") part_checker(one); else if (pt == "builder") part_builder(one); else if (pt == "keyring") part_keyring(one); else if (pt == "setget") { one.worker = 1 % one.nworkers; part_setget(one); }
     else if (pt == "checker-history") { std::vector<COp> ops; size_t i; json_t *e; json_array_foreach(json_object_get(j.p, "ops"), i, e) ops.push_back({(int)json_integer_value(json_array_get(e, 0)), (int)json_integer_value(json_array_get(e, 1)), (int)json_integer_value(json_array_get(e, 2))}); return run_checker_hist((int)json_integer_value(json_object_get(j.p, "prov")), ops).empty() ? 0 : 3; }
     else if (pt == "builder-history") { std::vector<BOp> ops = bops_from_json(json_object_get(j.p, "ops")); return run_builder_hist((int)json_integer_value(json_object_get(j.p, "prov")), ops).empty() ? 0 : 3; }
     return st.violations.empty() ? 0 : 3;
